@@ -95,6 +95,10 @@ MUTANTS = [
     ("C05-2d-storage-class-member", "C05", P + "common/ast_to_cpp_translator.py",
      "                    scope.declare_variable(storage)\n",
      "                    self._gc.declare_class_variable(storage)\n"),
+    ("C05-accumulator-inside-outer-loop-again", "C05", P + "common/ast_to_cpp_translator.py",
+     "            accumulator_scope = seq.outermost_iterator_value().scope()[-1]", "            accumulator_scope = seq.iterator_value().scope()[-1]"),
+    ("C05-first-flag-inside-outer-loop-again", "C05", P + "common/ast_to_cpp_translator.py",
+     "        loop_scope = seq.outermost_iterator_value().scope()", "        loop_scope = seq.iterator_value().scope()"),
     ("C05-atlas-swallow-event-exception", "C05", P + "template/atlas/r21/query.cxx",
      "  {% for l in query_code %}\n  {{l}}\n  {% endfor %}\n",
      "  try {\n  {% for l in query_code %}\n  {{l}}\n  {% endfor %}\n  } catch (const std::exception &e) { return StatusCode::SUCCESS; }\n"),
